@@ -77,7 +77,7 @@ def decoders():
     D["CdsShortTimestamp.unpack_from_raw"] = CdsShortTimestamp.unpack_from_raw
     D["CdsShortTimestamp.read_from_raw"] = lambda b: CdsShortTimestamp.empty().read_from_raw(b)
     D["RequestId.unpack"] = RequestId.unpack
-    for pfc in (8, 16, 32, 64):
+    for pfc in (8, 16, 32, 64, 5, 12, 20, 28, 36, 60, 63):          # incl. codes that are accepted although not byte aligned
         D[f"PacketFieldEnum.unpack[pfc={pfc}]"] = (lambda pfc: lambda b: PacketFieldEnum.unpack(b, pfc))(pfc)
     for n in (1, 2, 4):
         D[f"FailureNotice.unpack[code={n}]"] = (lambda n: lambda b: FailureNotice.unpack(b, n))(n)
